@@ -19,6 +19,10 @@ T = {}
 def _t(n):
     LOG.append(n)
     return T.get(n, True)
+def RAW(x=1):
+    return x
+def HELPER(self, x=1):
+    return x
 '''
 
 INV = {"-": None, "C": "icontract.InvariantCheckEvent.CALL", "S": "icontract.InvariantCheckEvent.SETATTR", "A": "icontract.InvariantCheckEvent.ALL"}
@@ -30,6 +34,11 @@ def render_step(i, step):
     """step = {"op": "class", "bases": [...], "inv": "C"/"S"/"A"/"-"/"CS"..., "m": opt, "p": opt} | {"op": "func", "c": opt}"""
     name = "X{}".format(i)
     w = []
+    if step["op"] == "redecorate":
+        # the SAME undecorated function object is decorated once more; the result is a new contracted function
+        w.append("def p_g{0}(x):\n    return _t('p_g{0}')\ndef q_g{0}(result):\n    return _t('q_g{0}')\n".format(i))
+        w.append("g{0} = icontract.require(p_g{0})(RAW)\n".format(i))
+        return "".join(w)
     if step["op"] == "func":
         w.append("def p_g{0}(x):\n    return _t('p_g{0}')\n".format(i))
         w.append("def q_g{0}(result):\n    return _t('q_g{0}')\n".format(i))
@@ -48,7 +57,10 @@ def render_step(i, step):
     if not step["bases"]:
         body.append("    def __init__(self):\n        self.a = 1\n")
     m = step["m"]
-    if m != "-":
+    if m == "helper":
+        # one shared helper function used as the method of several classes
+        body.append("    m = HELPER\n")
+    elif m != "-":
         d = {"bare": "", "pre": "    @icontract.require(p_{0})\n", "post": "    @icontract.ensure(q_{0})\n",
              "prepostsnap": "    @icontract.snapshot(lambda x: x, name='s_{0}')\n    @icontract.require(p_{0})\n    @icontract.ensure(q_{0})\n"}[m].format(name)
         body.append(d + "    def m(self, x=1):\n        return x\n")
@@ -72,7 +84,7 @@ def build(history):
 def cond_names(history):
     names = []
     for i, step in enumerate(history):
-        if step["op"] == "func":
+        if step["op"] in ("func", "redecorate"):
             names += ["p_g{}".format(i), "q_g{}".format(i)]
         else:
             n = "X{}".format(i)
@@ -87,7 +99,7 @@ def observe(ns, history, upto, names):
     obs = {}
     for i in range(upto):
         step = history[i]
-        if step["op"] == "func":
+        if step["op"] in ("func", "redecorate"):
             g = ns["g{}".format(i)]
             chk = icontract._checkers.find_checker(g)
             lists = ([[c.condition.__name__ for c in grp] for grp in chk.__preconditions__],
@@ -158,22 +170,24 @@ def steps_for(existing, tier):
     """All definition steps possible given the names of the existing classes. ``tier`` names the alphabet:
     quick = small alphabet, thorough = full alphabet."""
     out = []
-    inv_opts = ["-", "C", "S", "A"] if tier == "quick" else ["-", "C", "S", "A", "CS", "SA"]
-    m_opts = ["-", "pre", "post"] if tier == "quick" else ["-", "bare", "pre", "post", "prepostsnap"]
+    inv_opts = {"quick": ["-", "C", "S", "A"], "tiny": ["-", "C", "S"]}.get(tier, ["-", "C", "S", "A", "CS", "SA"])
+    m_opts = {"quick": ["-", "pre", "post", "prepostsnap", "helper"], "tiny": ["-", "pre", "prepostsnap"]}.get(
+        tier, ["-", "bare", "pre", "post", "prepostsnap", "helper"])
     base_choices = [[]] + [[c] for c in existing] + [[a, b] for a, b in itertools.permutations(existing, 2)]
     for bases in base_choices:
         for inv in inv_opts:
             for m in m_opts:
-                for p in (["-"] if tier == "quick" else PROP_OPTS):
+                for p in (["-"] if tier in ("quick", "tiny") else PROP_OPTS):
                     out.append({"op": "class", "bases": bases, "inv": inv, "m": m, "p": p})
-    for c in (["pre"] if tier == "quick" else ["pre", "prepostsnap"]):
+    for c in (["pre"] if tier in ("quick", "tiny") else ["pre", "prepostsnap"]):
         out.append({"op": "func", "c": c})
+    out.append({"op": "redecorate"})
     return out
 
 
 def roots(tier):
     out = []
-    for inv in ("C", "S", "A", "CS") if tier == "quick" else ("C", "S", "A", "CS", "SC", "-"):
+    for inv in {"quick": ("C", "S", "A", "CS"), "tiny": ("C", "CS")}.get(tier, ("C", "S", "A", "CS", "SC", "-")):
         out.append({"op": "class", "bases": [], "inv": inv, "m": "prepostsnap", "p": "post"})
     return out
 
@@ -263,8 +277,8 @@ def work(args):
 
 
 def run(tier, t0):
-    # quick: depth 2 over the small alphabet. thorough: depth 2 over the full alphabet plus depth 3 over the small one.
-    plans = [("quick", 2)] if tier == "quick" else [("thorough", 2), ("quick", 3)]
+    # quick: depth 2 over the small alphabet. thorough: depth 2 over the full alphabet plus depth 3 over a tiny one.
+    plans = [("quick", 2)] if tier == "quick" else [("thorough", 2), ("tiny", 3)]
     fine = []
     for alpha, depth in plans:
         for root in roots(alpha):
@@ -278,8 +292,10 @@ def run(tier, t0):
         rule="definition histories: contracted root class (invariant check_on in several combinations, method with pre/post/"
              "snapshot, property with postcondition) followed by every sequence of definition steps from: class with bases = DBC | "
              "one existing class | two existing classes in either order, invariant check_on, method contracts, property contracts; "
-             "decorated module-level function. Plans (alphabet, depth after root): {}. small alphabet: invariant in {{none, CALL, "
-             "SETATTR, ALL}} x method in {{absent, pre, post}}; full alphabet adds CALL+SETATTR, SETATTR+ALL, bare and "
+             "decorated module-level function. Plans (alphabet, depth after root): {}. tiny alphabet: invariant in {{none, CALL, SETATTR}} x method in {{absent, pre, "
+             "pre+post+snapshot}}; small (quick) alphabet: invariant in {{none, CALL, "
+             "SETATTR, ALL}} x method in {{absent, pre, post, pre+post+snapshot, a shared helper function}}; every alphabet also "
+             "re-decorates one shared plain function; full alphabet adds CALL+SETATTR, SETATTR+ALL, bare and "
              "pre+post+snapshot methods, properties. Every history is replayed on a fresh namespace; before/after the last step "
              "all earlier definitions are observed (names in __invariants__/_on_call__/_on_setattr__ and whether the class owns "
              "the list, checker lists of m and p, own members; probe construct/m/p/setattr under all-true and each-single-falsy "
